@@ -55,6 +55,8 @@ func TestProp(t *testing.T) {
 		return
 	}
 	defer r.Finish()
+	var pool evid.Pool[Case] // rapid-drawn cases, evaluated side by side once more at the end
+	defer func() { evid.Concurrent(r, &pool, 16, Eval) }()
 	if err := refcheck.All(); err != nil {
 		r.Inconclusive("reference self-test failed: %v", err)
 		return
@@ -80,7 +82,11 @@ func TestProp(t *testing.T) {
 		}
 		c.Apply(ds...)
 		count(r, c)
-		if r.Judge("apreq", c, Eval(c)) {
+		v := Eval(c)
+		if v.OK {
+			pool.Add("apreq", c)
+		}
+		if r.Judge("apreq", c, v) {
 			t.Fatalf("violation")
 		}
 	})
